@@ -175,7 +175,20 @@ def compound_cases(rng, ifaces, names, n):
         log, errs = simulate(iface, msgs, stats)
         meta = {'log': log, 'errs': errs, 'kind': 'RUN-compound', 'units': sum(len(m) for m in msgs)}
         mode = i % 3
-        if mode == 0:
+        if i % 7 == 3 and not errs and all(u is not None for m in msgs for u in m):
+            # fault-free: the same bytes handed to `run_from` unit by unit (cut behind every `;` and line feed), the header path
+            # carried from piece to piece — what `process` does when a message arrives in several parts
+            whole = b''.join(texts)
+            pieces, cur = [], b''
+            for b in whole:
+                cur += bytes([b])
+                if b in (59, 10):
+                    pieces.append(cur); cur = b''
+            if cur:
+                pieces.append(cur)
+            op = f'RUNF {iface.name} std ' + '|'.join(hx(p) for p in pieces)
+            meta['kind'] = 'RUNF-compound'
+        elif mode == 0:
             wr = 'pt' if i % 2 else 'std'
             if wr == 'pt':
                 meta['answers'] = stats.get('answers', 0)
